@@ -14,6 +14,7 @@
   exhaustive small-scope family — labelled as such in the evidence, not claimed as theorems.
 -/
 import PgProofs.GenoIter
+import PgProofs.GenoValid
 namespace Pg.Geno
 
 /-! ### Full statements -/
@@ -39,6 +40,15 @@ def C11_size_Full : Prop :=
 /-- Binding accepts exactly the members. -/
 def C11_bind_Full : Prop :=
   ∀ (g : Spec) (d : DNA), g.wf = true → (g.bind d = true ↔ Valid g d)
+
+/-! ### Proved for every finite spec (multi-choices in all four modes included) -/
+
+/-- The enumeration `g.all` is sound and complete for the constraints: it lists exactly the DNAs
+that satisfy arity, index range, distinctness, sortedness and validity of the children in the
+chosen candidates. -/
+theorem C11_spec_sound_complete (g : Spec) (hf : g.finite = true) (d : DNA) :
+    d ∈ g.all ↔ Valid g d :=
+  mem_all_iff g hf d
 
 /-! ### Proved: specs without multi-choices (spaces, single choices, conditional sub-spaces of any
 depth and width) -/
@@ -75,6 +85,13 @@ theorem C11_iter_count_partial (g : Spec) (hf : g.finite = true) (hw : g.wf = tr
     ∃ n l, g.size = some n ∧ g.iter (n + 1) = some (l, true) ∧ l.length = n ∧ l.Nodup ∧ l = g.all :=
   ⟨g.all.length, g.all, C11_size_partial g hf hw hm,
    C11_iter_partial g hf hw hm _ (Nat.lt_succ_self _), rfl, C11_all_nodup_partial g hf hw hm, rfl⟩
+
+/-- … and the iterated set is precisely the set of DNAs that satisfy the constraints. -/
+theorem C11_iter_exact_partial (g : Spec) (hf : g.finite = true) (hw : g.wf = true) (hm : g.noMulti = true)
+    (fuel : Nat) (hfuel : g.all.length < fuel) :
+    ∃ l, g.iter fuel = some (l, true) ∧ l.Nodup ∧ ∀ d, d ∈ l ↔ Valid g d :=
+  ⟨g.all, C11_iter_partial g hf hw hm fuel hfuel, C11_all_nodup_partial g hf hw hm,
+   fun d => C11_spec_sound_complete g hf d⟩
 
 /-- The Sweeping generator proposes the same sequence as `iter_dna` (for every spec: it is the
 same loop over `next_dna`). -/
